@@ -49,6 +49,8 @@ def run(ctx):
     chunk = 4000
     for c in range(0, len(sampled), chunk):
         batches.append((f"sampled_{c // chunk}", sampled[c:c + chunk], 0, 0))
+    structured = [vg.run_real(p, shuffle_seed=rnd.randrange(10 ** 6)) for p in vg.structured_declarations()]
+    batches.append(("structured", structured, 0, 0))
     models = []
     for name in zoo.CONFIGS:
         m, data, df = zoo.make(name)
@@ -57,7 +59,7 @@ def run(ctx):
     batches.append(("models", models, 0, 0))
     n_ok = sum(r["cls"] == "ok" for _, rs, _, _ in batches for r in rs)
     for tag, rs, en, ec in batches:
-        ok, idx, res = vg.validate(rs, os.path.join(ctx.tmp, "vg"), tag, en, ec, ref=(tag != "models"))
+        ok, idx, res = vg.validate(rs, os.path.join(ctx.tmp, "vg"), tag, en, ec, ref=(tag not in ("models", "structured")))
         ctx.states += res.distinct
         ctx.transitions += res.generated
         ctx.traces += len(rs)
